@@ -71,6 +71,14 @@ pub struct StreamSource {
     pub items_generated: u64,
     pub trace: Fnv,
     done: bool,
+    /// filler lines still to come inside the clause that is currently open (profile bit 0x200)
+    inner_left: usize,
+    /// the open clause still needs its closing literals and terminator
+    inner_tail: bool,
+    /// the BTOR2 stream got its malformed last line (profile bit 0x400)
+    poisoned: bool,
+    pub inner_bursts: u64,
+    pub poison_tails: u64,
 }
 
 impl StreamSource {
@@ -101,6 +109,11 @@ impl StreamSource {
             items_generated: 0,
             trace: Fnv::default(),
             done: false,
+            inner_left: 0,
+            inner_tail: false,
+            poisoned: false,
+            inner_bursts: 0,
+            poison_tails: 0,
         }
     }
 
@@ -148,6 +161,29 @@ impl StreamSource {
                 }
                 _ => {}
             }
+        }
+        // a run of comment / empty lines inside a clause that was split over lines: the clause's own
+        // bytes stay small, every filler line is an item of its own
+        if self.inner_left > 0 {
+            self.inner_left -= 1;
+            if rng.chance(1, 3) {
+                p.push(b'\n');
+            } else {
+                p.extend_from_slice(b"c ");
+                let n = rng.below(m.min(60));
+                p.extend(std::iter::repeat(b'y').take(n));
+                p.push(b'\n');
+            }
+            return;
+        }
+        if self.inner_tail {
+            self.inner_tail = false;
+            for _ in 0..rng.below(3) {
+                let v = 1 + rng.next_u64() % lit_max;
+                let _ = write!(p, " {v}");
+            }
+            p.extend_from_slice(b" 0\n");
+            return;
         }
         // bursts of filler lines (consecutive comments / blank lines), each line short
         if self.burst_left == 0 && self.burst_pct > 0 && rng.below(10_000) < self.burst_pct as usize {
@@ -235,7 +271,14 @@ impl StreamSource {
                         p.push(b'-');
                     }
                     let _ = write!(p, "{v}");
-                    if self.profile & 0x100 != 0 && rng.chance(1, 40) {
+                    if self.profile & 0x200 != 0 && self.burst_pct > 0 && rng.chance(1, 400) {
+                        // line break inside the clause, then a long run of filler lines, then the rest
+                        p.push(b'\n');
+                        self.inner_left = 1 + rng.below(200_000);
+                        self.inner_tail = true;
+                        self.inner_bursts += 1;
+                        return;
+                    } else if self.profile & 0x100 != 0 && rng.chance(1, 40) {
                         p.extend_from_slice(b"\nc in between\n ");
                     } else {
                         p.push(b' ');
@@ -342,7 +385,20 @@ impl Read for StreamSource {
         let mut n = 0;
         while n < limit {
             if self.pend_pos == self.pending.len() {
-                if self.delivered >= self.total {
+                if self.delivered >= self.total && self.inner_left == 0 && !self.inner_tail {
+                    if self.kind == PKind::Btor2 && self.profile & 0x400 != 0 && !self.poisoned {
+                        // malformed last line: a justice node that declares millions of conditions and
+                        // has three; it is rejected, and must be rejected without memory for the declared count
+                        use std::io::Write;
+                        self.poisoned = true;
+                        self.poison_tails += 1;
+                        self.pending.clear();
+                        self.pend_pos = 0;
+                        self.next_id += 1;
+                        let count = 2_000_000 + self.rng.below(6_000_000);
+                        let _ = writeln!(self.pending, "{} justice {} 1 1 1", self.next_id, count);
+                        continue;
+                    }
                     self.done = true;
                     break;
                 }
@@ -464,7 +520,7 @@ impl Prop for C10 {
             profile: if rng.chance(1, 2) {
                 u32::MAX
             } else {
-                (rng.next_u64() as u32 & 0x1ff) | (1 << rng.below(6))
+                (rng.next_u64() as u32 & 0x7ff) | (1 << rng.below(6))
             },
             declared: if kind.is_dimacs() && rng.chance(1, 4) {
                 1 + rng.below(3000) as u64
@@ -521,6 +577,8 @@ impl Prop for C10 {
         st.add("stream.bytes", src.delivered as u64);
         st.add("stream.items", items);
         st.add("fault.interrupted", src.interrupted);
+        st.add("stream.filler_runs_inside_clause", src.inner_bursts);
+        st.add("stream.malformed_last_line", src.poison_tails);
         st.hit(&format!("parser.{}", case.kind.name()));
         st.hit(match case.sizes {
             ReadSizes::Full => "reads.full",
